@@ -390,6 +390,67 @@ def mutable_default_case(rng, res, label):
                                   replay))
 
 
+from fiddle import arg_factory as _arg_factory
+
+
+@_arg_factory.supply_defaults
+def fsd(a, items=_arg_factory.default_factory(list), n=3):
+  """A default that is a *factory* (arg_factory.default_factory): the signature's default is a sentinel."""
+  return l2._rec("fsd", locals())  # pylint: disable=protected-access
+
+
+def fpo(a, b=2, /, c=3):
+  return l2._rec("fpo", locals())  # pylint: disable=protected-access
+
+
+def special_default_cases(rng, res):
+  """materialize_defaults / with_defaults_trimmed on (1) a callable whose default is a default_factory
+  sentinel and (2) a Partial whose required positional-only parameter is still unset (it is supplied when
+  the partial is called): the build - and what a call of the built partial receives - must not change."""
+  cases = []
+  for kind in (fdl.Config, fdl.Partial):
+    cases.append(("supply_defaults", kind(fsd, rng.randint(0, 9)), ()))
+    cases.append(("supply_defaults-nested", fdl.Config(l2.fd, x=[kind(fsd, 1)], y=kind(fsd, 2, n=5)), ()))
+  cases.append(("posonly-required-unset", fdl.Partial(fpo), (7,)))
+  cases.append(("posonly-required-unset-kw", fdl.Partial(fpo, c=9), (7,)))
+  cases.append(("posonly-required-set", fdl.Partial(fpo, 1), ()))
+  cases.append(("posonly-required-unset-nested", fdl.Config(l2.fd, x=fdl.Partial(fpo), y=[fdl.Partial(fpo, 5)]), None))
+
+  def observe(cfg, call_args):
+    out = try_build(cfg)
+    if out[0] != "ok" or call_args is None:
+      return out
+    built = fdl.build(cfg)
+    if isinstance(built, functools.partial):
+      try:
+        r = built(*call_args)
+        return ("called", repr(getattr(r, "view", r)))
+      except Exception as e:  # pylint: disable=broad-except
+        return ("call-raised", type(e).__name__)
+    return out
+
+  for label, cfg, call_args in cases:
+    for name in ("materialize_defaults", "with_defaults_trimmed"):
+      res.evaluations += 1
+      res.count("special-default:" + label)
+      before = observe(copy.deepcopy(cfg), call_args)
+      out = copy.deepcopy(cfg)
+      try:
+        if name == "materialize_defaults":
+          materialize.materialize_defaults(out)
+        else:
+          out = visualize.with_defaults_trimmed(out)
+      except Exception as e:  # pylint: disable=broad-except
+        res.failures.append(Failure(None, f"C20 special-default {label}: {name} raised {type(e).__name__}: {e}",
+                                    {"cfg": repr(cfg)}))
+        continue
+      after = observe(out, call_args)
+      if after != before:
+        res.failures.append(Failure(None, f"C20 special-default {label}: {name} changed what is built / what a call "
+                                    f"of the built partial receives: before {before!r}, after {after!r}",
+                                    {"cfg": repr(cfg), "out": repr(out)}))
+
+
 def run(tier: str, seed: int) -> Result:
   rng = random.Random(seed * 217645199 + 20)
   res = Result()
@@ -426,6 +487,8 @@ def run(tier: str, seed: int) -> Result:
     one_case(rng, res, intern, stream, root, name, f"cfg#{i}")
   for i in range(40 if tier == "quick" else 1000):
     mutable_default_case(rng, res, f"mutdef#{i}")
+  for _ in range(2 if tier == "quick" else 20):
+    special_default_cases(rng, res)
   for i in range(20 if tier == "quick" else 300):
     inline_case(rng, res, f"inline#{i}")
     dataclass_case(rng, res, f"dc#{i}")
